@@ -317,7 +317,7 @@ func c17Build(desc string) any {
 	for i := len(parts) - 2; i >= 0; i-- {
 		switch parts[i] {
 		case "mapany":
-			v = map[string]any{"k": v, "tag": "maptag", "1": "one-key"}
+			v = map[string]any{"k": v, "tag": "maptag", "1": "one-key", "x.y": "dotted-key", "x": map[string]any{"y": "x-then-y"}}
 		case "sliceany":
 			v = []any{v, "second"}
 		case "struct":
@@ -343,7 +343,7 @@ func c17Build(desc string) any {
 	return v
 }
 
-var c17Steps = []string{"k", "0", "1", "9", "-1", "Field", "tag", "priv", "Tagged"}
+var c17Steps = []string{"k", "0", "1", "9", "-1", "Field", "tag", "priv", "Tagged", "x.y"}
 
 // refStep is ordinary Go indexing: (value, ok, defined)
 func refStep(cur any, step string) (any, bool, bool) {
@@ -426,7 +426,16 @@ func (c *c17Case) runPath(ctx *core.Ctx) {
 			ctx.Zone("present-nil-value")
 			return
 		}
+		hasDot := false
+		for _, s := range steps {
+			if strings.Contains(s, ".") {
+				hasDot = true
+			}
+		}
 		for _, syn := range []string{"dotted", "mixed", "quoted"} {
+			if hasDot && syn != "quoted" {
+				continue // a key that contains a dot can only be written in brackets
+			}
 			p := "r"
 			for _, s := range steps {
 				_, numErr := strconv.Atoi(s)
